@@ -474,10 +474,18 @@ func joinViews(ctx context.Context, scope *ReferenceScope, view *View, joinView 
 		alternatives := make(map[int]int)
 
 		for i := range includeFields {
-			idx, _ := view.Header.SearchIndex(includeFields[i])
+			// Without a record on one side the join condition has not been evaluated: a column that
+			// cannot be resolved (e.g. the same name in two unnamed subqueries) is reported here.
+			idx, err := view.FieldIndex(includeFields[i])
+			if err != nil {
+				return err
+			}
 			includeIndices.Add(uint(idx))
 
-			eidx, _ := view.Header.SearchIndex(excludeFields[i])
+			eidx, err := view.FieldIndex(excludeFields[i])
+			if err != nil {
+				return err
+			}
 			excludeIndices.Add(uint(eidx))
 
 			alternatives[idx] = eidx
